@@ -38,7 +38,7 @@ func SwarmBin(r *prng.Rand) BinOpts {
 	o.LeadingZeros = r.Chance(1, 3)
 	o.NOPs = r.Chance(1, 3)
 	o.Float32 = r.Chance(2, 3)
-	o.Ordered = r.Chance(1, 3)
+	o.Ordered = r.Chance(1, 2)
 	o.RepeatBVM = r.Chance(1, 6)
 	o.SplitLST = r.Chance(1, 4)
 	return o
@@ -373,7 +373,7 @@ func (e *binEnc) bare(v *model.Value, depth int) *buf {
 		for i := range body.m {
 			body.m[i].Cont = true
 		}
-		if asc && len(v.Kids) > 0 && e.chance(e.o.Ordered, 1, 2) {
+		if asc && len(v.Kids) > 0 && e.chance(e.o.Ordered, 3, 4) {
 			x.put(RTag, depth, 0xd1)
 			x.site("tag", 0, 1, depth, 13<<8|1)
 			lb := e.varUIntPadded(uint64(len(body.b)))
